@@ -1258,3 +1258,75 @@ def client_builds_from_data(check: Check, repo: Repo, rule: str = "CLIENT-FROM-D
                      f"returns `{node_text(v, 60)}`, not a {cls}(...) built from the introspection result")
     if n < 7:
         raise AnalysisError("CLIENT-FROM-DATA: builder returns not found")
+
+
+# -- round 4 ------------------------------------------------------------------------------------------------
+
+_IDENTITY_COMPARATORS = {"is_equal_type", "is_type_sub_type_of", "do_types_overlap"}
+
+
+def cross_schema_by_name(check: Check, repo: Repo, rule: str = "CROSS-SCHEMA-BY-NAME") -> None:
+    from rules.write_effect import top_heads
+    from sa.mtypes import MTypes
+
+    check.rule(
+        rule,
+        "find_schema_changes compares two *different* schema objects, whose equally named types are different objects "
+        "(a schema and the client schema rebuilt from its introspection share nothing but the built-in scalars): types are "
+        "compared by their printed form or name, never by identity. No call of the identity-based comparators of "
+        "utilities.type_comparators (is_equal_type, is_type_sub_type_of, do_types_overlap) and no ==/!=/is/is not whose two "
+        "operands are GraphQL type objects (static types from mypy) occurs in the module; such a comparison reports "
+        "`Role! -> Role!` as a change between a schema and its own reconstruction",
+    )
+    mod = repo.mod("utilities.find_schema_changes")
+    mt = MTypes.get(repo)
+    calls = [c for c in ast.walk(mod.tree) if isinstance(c, ast.Call) and call_name(c).split(".")[-1] in _IDENTITY_COMPARATORS]
+    for c in calls:
+        check.ob(rule, c, f"{qualname_of(c)}: {unparse(c)[:70]}", False,
+                 "identity-based comparator applied to types of two schemas: equal types of different schema objects never compare equal")
+    n = bad = 0
+    for c in ast.walk(mod.tree):
+        if not (isinstance(c, ast.Compare) and len(c.ops) == 1 and isinstance(c.ops[0], (ast.Eq, ast.NotEq, ast.Is, ast.IsNot))):
+            continue
+        n += 1
+        heads = [top_heads(mt.type_of(x) or "") for x in (c.left, c.comparators[0])]
+        if all(h and all(t.startswith("graphql.type.definition.GraphQL") and not t.endswith(("Kwargs", "Map")) for t in h) for h in heads):
+            bad += 1
+            check.ob(rule, c, f"{qualname_of(c)}: `{unparse(c)[:70]}`", False,
+                     "two GraphQL type objects are compared directly; across schemas only str(type) / type.name are comparable")
+    check.ob(rule, mod.tree, f"find_schema_changes: {n} comparisons, {len(calls)} comparator calls", not calls and not bad,
+             "types are compared by text/name only" if not calls and not bad else "see the sites above", nontrivial=False)
+    if n < 20:
+        raise AnalysisError("find_schema_changes: comparisons not found")
+
+
+DEFAULT_PRINTERS = [
+    ("type.introspection", "InputValueFields.default_value"),
+    ("utilities.print_schema", "print_input_value"),
+]
+
+
+def default_verbatim(check: Check, repo: Repo, rule: str = "DEFAULT-VERBATIM") -> None:
+    check.rule(
+        rule,
+        "the two writers of a default value - the `defaultValue` resolver of introspection and print_schema's "
+        "print_input_value - print the literal get_default_value_ast(<input value>) returns as it is: the argument of "
+        "print_ast is that call's result (directly or through a local bound once), with no node transformation in "
+        "between. The two texts are compared by 'prints identically' (SDL of the client schema vs. SDL of the original); "
+        "a writer that normalises (sorts object fields) on one side only makes them differ",
+    )
+    for mn, q in DEFAULT_PRINTERS:
+        fn = repo.func(mn, q)
+        prints = [c for c in walk_body(fn) if isinstance(c, ast.Call) and call_name(c) == "print_ast" and c.args]
+        if not prints:
+            check.ob(rule, fn, f"{q}: prints the default literal", False, "no print_ast(...) call")
+            continue
+        for c in prints:
+            a = c.args[0]
+            if isinstance(a, ast.Name):
+                defs = [s.value for s in walk_body(fn) if isinstance(s, ast.Assign) and any(isinstance(t, ast.Name) and t.id == a.id for t in s.targets)]
+                if len(defs) == 1:
+                    a = defs[0]
+            ok = isinstance(a, ast.Call) and call_name(a) == "get_default_value_ast"
+            check.ob(rule, c, f"{q}: print_ast({unparse(c.args[0])[:40]})", ok,
+                     "the literal of get_default_value_ast, unmodified" if ok else f"prints `{unparse(a)[:70]}`: the literal is transformed before printing")
